@@ -46,6 +46,20 @@ def tuple_ops(rng, k):
 def cases(rng, tier, X):
     n = 1200 if tier == 'quick' else 120000
     out = [('t%d' % k, tuple_ops(rng, k)) for k in range(n)]
+    # the attributes change between two Hellos (machine name renamed, addresses, speed, ...), also seen from a second interface
+    for k in range(40 if tier == 'quick' else 3000):
+        ops = tuple_ops(rng, k)
+        ops.insert(1, F.iface_line(1, mac=F.OWN2, mtu=576, wifi=rng.choice([0, 1]), mode=1, bssid=F.STATIONS[3], ssid='6162', rate=11, rssi=-70))
+        M = F.STATIONS[0]
+        for _ in range(rng.randint(1, 3)):
+            ops.append(rng.choice(['glob host=%s' % (''.join('%02x' % rng.randrange(1, 256) for _ in range(rng.choice([0, 2, 13, 31, 32, 33, 40]))) or '-'),
+                                   'set 0 speed=%d' % rng.randrange(2**32), 'set 0 ipv4=%08x' % rng.randrange(2**32), 'set 0 flags=%d' % rng.randrange(65536),
+                                   'set 1 rssi=%d' % rng.randint(-128, 127), 'set 1 rate=%d' % rng.randrange(65536)]))
+            if rng.random() < 0.5:
+                ops.append('rx %d %s' % (rng.choice([0, 1]), F.reset(M)))
+            ops.append('rx 1 %s' % F.discover(M, 3, 4, tos=rng.choice([0, 1])))
+            ops.append('rx 0 %s' % F.discover(M, 5, 6, tos=rng.choice([0, 1])))
+        out.append(('chg%d' % k, ops))
     # universal traffic (every frame type / sender / path / service / boundary value, 1..3 interfaces): this check's predicate on it
     for k in range(60 if tier == 'quick' else 6000):
         out.append(('u%d' % k, F.universal(rng)))
